@@ -121,6 +121,36 @@ def _value_at(g, e, at, depth: int = 0):
     return R().visit(copy.deepcopy(e))
 
 
+def _written_out(S, fi):
+    """fi with every `for` loop over literal cases written out case by case (c01.normalised; fi itself when there is none)"""
+    from . import c01
+    return c01.normalised(S, fi)
+
+
+def _through_alias(fi, cx, target):
+    """the store target `L[k]` with L replaced by the attribute path of `self` it names, when L is a local assigned exactly once, outside any loop,
+    with a plain attribute path of `self` (a list: the local and the attribute are then one object) and the function never re-binds that
+    attribute itself; any other target is returned as it is"""
+    if not (isinstance(target, ast.Subscript) and isinstance(target.value, ast.Name)):
+        return target
+    v = cx.local_defs().get(target.value.id)
+    path = v
+    while isinstance(path, ast.Attribute):
+        path = path.value
+    if not (isinstance(v, ast.Attribute) and isinstance(path, ast.Name) and path.id == "self"):
+        return target
+    txt = n(v)
+    for x in ast.walk(fi.node):
+        tgs = x.targets if isinstance(x, ast.Assign) else [x.target] if isinstance(x, (ast.AugAssign, ast.AnnAssign, ast.For, ast.NamedExpr)) else \
+            x.targets if isinstance(x, ast.Delete) else []
+        for t in tgs:
+            if any(isinstance(y, ast.Attribute) and n(y) == txt for y in ast.walk(t) if not isinstance(getattr(y, "ctx", None), ast.Load)):
+                return target
+    out = copy.copy(target)
+    out.value = copy.deepcopy(v)
+    return out
+
+
 def _directions(fi, rk_stmt, cx):
     """(end temperature of pass 0, of pass 1, name of the pass index) of the `for` loop around the integrator"""
     loops = [x for x in own_nodes(fi.node) if isinstance(x, ast.For) and any(y is rk_stmt for y in ast.walk(x))]
@@ -413,21 +443,29 @@ def rules(chk: Check) -> None:
     chk.ob("R11.2", fi.where(), "the table starts with the re-minimised starting point (T0, phase0, potential0)", bool(okI), str({k: n(v) for k, v in init.items()})[:200],
            key="initial-point")
     # ---- R11.3
+    # the end bookkeeping is read off the written-out form of the function: a `for` over a literal tuple of (limit list, condition) cases that
+    # merges the two copy-pasted blocks is one copy of its body per case again; a store through a local that merely names one of the two
+    # limit lists (`L = self.minPossibleTemperature; L[1] = True`) is a store to that attribute
+    fiW = _written_out(S, fi)
+    cw = cx if fiW is fi else Ctx(S, fiW)
     stores = {}
-    for guards, st in walk_guarded(fi.node):
-        if isinstance(st, ast.Assign) and n(st.targets[0]).startswith("self.m") and "PossibleTemperature" in n(st.targets[0]):
+    for guards, st in walk_guarded(fiW.node):
+        if not (isinstance(st, ast.Assign) and len(st.targets) == 1):
+            continue
+        tg = n(_through_alias(fiW, cw, st.targets[0]))
+        if tg.startswith("self.m") and "PossibleTemperature" in tg:
             gt = [t for t, pol in guards if pol and not isinstance(t, tuple)]
-            stores[n(st.targets[0])] = (st.value, gt[-1] if gt else None)
+            stores[tg] = (st.value, gt[-1] if gt else None)
     # the joined list of temperatures: the argument of min(...) in the stored lower end
     TF = None
     if "self.minPossibleTemperature[0]" in stores:
-        b = match(stores["self.minPossibleTemperature[0]"][0], "min(__TF) + 2 * dT", cx)
+        b = match(stores["self.minPossibleTemperature[0]"][0], "min(__TF) + 2 * dT", cw)
         TF = b["TF"] if b else None
-    ok = TF is not None and "self.maxPossibleTemperature[0]" in stores and eqx(stores["self.maxPossibleTemperature[0]"][0], f"max({TF}) - 2 * dT", cx)
+    ok = TF is not None and "self.maxPossibleTemperature[0]" in stores and eqx(stores["self.maxPossibleTemperature[0]"][0], f"max({TF}) - 2 * dT", cw)
     chk.ob("R11.3", fi.where(), "usable range = [min(T) + 2 dT, max(T) - 2 dT] of the tabulated temperatures (documented safety margin)", bool(ok), key="margin")
     TF = TF or "TFullList"
     lo, hi = stores.get("self.minPossibleTemperature[1]", (None, None)), stores.get("self.maxPossibleTemperature[1]", (None, None))
-    ok = lo[1] is not None and hi[1] is not None and eqx(lo[1], f"min({TF}) > TMin", cx) and eqx(lo[0], "True") and eqx(hi[1], f"max({TF}) < TMax", cx) and eqx(hi[0], "True")
+    ok = lo[1] is not None and hi[1] is not None and eqx(lo[1], f"min({TF}) > TMin", cw) and eqx(lo[0], "True") and eqx(hi[1], f"max({TF}) < TMax", cw) and eqx(hi[0], "True")
     chk.ob("R11.3", fi.where(), "an end is flagged as a genuine end of the phase only when the table stops short of the requested range on that side", ok,
            str({k: n(v[1]) if v[1] is not None else "" for k, v in stores.items()}), key="flags")
     clip = {st.targets[0].id: st.value for st in own_nodes(fi.node) if isinstance(st, ast.Assign) and isinstance(st.targets[0], ast.Name) and st.targets[0].id in ("TMin", "TMax")}
@@ -540,7 +578,9 @@ def rules(chk: Check) -> None:
     else:
         ok = _helper_returns_only_on_sign_change(CFG(sf.node), sf, loop[0] if loop else None, fn_name) and _converged_before_return(gc, fc, rs[0])
     chk.ob("R11.4", fc.where(), "no sign change, or a non-converged refinement, raises instead of returning a temperature", ok, key="raises")
-    tr = [c for c in calls_in(fc.node, "tracePhase")]
+    # (a `for` over a literal pair of (free energy, log message) that merges the two "trace the phase if not interpolated" blocks is written out first)
+    from . import c06
+    tr = [c for c in calls_in(c06.written_out(S, fc).node, "tracePhase")]
     ok = len(tr) == 2 and all(kwarg(c, "spinodal") is not None and n(kwarg(c, "spinodal")) == "True" for c in tr)
     chk.ob("R11.4", fc.where(), "phases traced here stop at spinodals", ok, key="trace-spinodal")
     # ---- R11.5
